@@ -369,6 +369,9 @@ func (ex *Exec) trCall(e *SExpr, env *Env) *Val {
 	case "asRef": // asRef(x, "Via") payload reference with struct type
 		x := arg(0)
 		return &Val{T: "(refOf " + x.T + ")", S: SRef(strings.TrimPrefix(e.Args[1].Name, "*"))}
+	case "cast": // cast(intRef, "T"): view an untyped reference (e.g. from a ghost log) as *T
+		x := arg(0)
+		return &Val{T: x.T, S: SRef(strings.TrimPrefix(e.Args[1].Name, "*"))}
 	case "asStr":
 		return &Val{T: "(strOf " + arg(0).T + ")", S: SString}
 	case "anyRef": // anyRef("*Via", r)
